@@ -37,11 +37,11 @@ type mconn struct {
 	accepted bool
 }
 
-const ruleC11Seq = "sequential phase on a real loopback socket: listener with backlog from {1,2,4,128}, accept filter from {none, first byte != 'X'}, batch reading {off, size 2, size 8}; 1..6 remote sockets (same IP, different ports); steps send(remote, size 9..8192 or empty, first byte 'X' or not), accept, read, close, send-again-after-close; after every send a marker datagram from an always-accepted remote is sent and read back, which (single-threaded FIFO read loop) proves the earlier datagram has been dispatched, so refusals are decidable without sleeping; model: remote -> connection/backlog/queue; oracle: Accept returns the connections in creation order with the right RemoteAddr, every Read returns exactly the next datagram of that remote, byte-identical, nothing on another connection, filtered or overflowing datagrams create nothing (verified at the end: the backlog holds exactly the model's connections), after Close a new datagram creates a fresh connection; non-trivial = >=2 remotes interleaved and at least one of close-then-reconnect, backlog overflow, filter refusal; distinct by hash of config + steps"
+const ruleC11Seq = "sequential phase on a real loopback socket: listener with backlog from {1,2,4,128}, accept filter from {none, first byte != 'X'}, batch reading {off, size 2, size 8}; 1..6 remote sockets (same IP, different ports); steps send(remote, size 9..8192 or empty, first byte 'X' or not), burst (the read loop is parked inside the accept filter by a gate datagram while 2..6 datagrams, with runs of one remote, are sent back to back, so that they are dispatched from one batch), accept, read, close, send-again-after-close; after every send a marker datagram from an always-accepted remote is sent and read back, which (single-threaded FIFO read loop) proves the earlier datagram has been dispatched, so refusals are decidable without sleeping; model: remote -> connection/backlog/queue; oracle: Accept returns the connections in creation order with the right RemoteAddr, every Read returns exactly the next datagram of that remote, byte-identical, nothing on another connection, filtered or overflowing datagrams create nothing (verified at the end: the backlog holds exactly the model's connections), after Close a new datagram creates a fresh connection; non-trivial = >=2 remotes interleaved and at least one of close-then-reconnect, backlog overflow, filter refusal; distinct by hash of config + steps"
 
 func TestC11Sequential(t *testing.T) {
 	r := ev.New("C11", "sequential", ruleC11Seq)
-	r.Essential = []string{"reconnect-after-close", "backlog-overflow", "filter-refusal", "batch/8", "empty-datagram"}
+	r.Essential = []string{"reconnect-after-close", "backlog-overflow", "filter-refusal", "batch/8", "empty-datagram", "burst-in-one-batch"}
 	r.MinForEssential = 300
 	r.Assume("real loopback UDP: the kernel delivers datagrams from one socket to another in order and, at these volumes, without loss")
 	r.Check(t, func(t *rapid.T, c *ev.Case) {
@@ -50,8 +50,21 @@ func TestC11Sequential(t *testing.T) {
 		batch := rapid.SampledFrom([]int{0, 0, 2, 8}).Draw(t, "batch")
 		nr := rapid.IntRange(1, 6).Draw(t, "remotes")
 		lc := udp.ListenConfig{Backlog: backlog}
-		if filter {
-			lc.AcceptFilter = func(b []byte) bool { return len(b) == 0 || b[0] != 'X' }
+		// The accept filter also serves as a gate: a datagram starting with 'G' (always from a
+		// fresh remote, always refused) parks the listener's read loop inside the filter until
+		// the harness releases it, so that the datagrams sent meanwhile are read in ONE batch.
+		gateIn := make(chan struct{}, 8)
+		gateOut := make(chan struct{})
+		lc.AcceptFilter = func(b []byte) bool {
+			if len(b) > 0 && b[0] == 'G' {
+				gateIn <- struct{}{}
+				<-gateOut
+				return false
+			}
+			if filter {
+				return len(b) == 0 || b[0] != 'X'
+			}
+			return true
 		}
 		if batch > 0 {
 			lc.Batch = udp.BatchIOConfig{Enable: true, ReadBatchSize: batch, WriteBatchSize: 1, WriteBatchInterval: time.Millisecond}
@@ -173,6 +186,24 @@ func TestC11Sequential(t *testing.T) {
 			}
 			c.Op("read remote %d -> %d bytes", i, n)
 		}
+		// apply updates the model for one datagram that the listener has dispatched
+		apply := func(i int, p []byte) string {
+			m := model[i]
+			switch {
+			case m != nil:
+				m.queue = append(m.queue, p)
+				return "queued on its connection"
+			case filter && len(p) > 0 && p[0] == 'X':
+				c.Label("filter-refusal")
+				return "refused by the accept filter"
+			case len(pending) >= backlog:
+				c.Label("backlog-overflow")
+				return "dropped: backlog full"
+			}
+			model[i] = &mconn{queue: [][]byte{p}}
+			pending = append(pending, i)
+			return "created a connection"
+		}
 		steps := rapid.IntRange(1, 50).Draw(t, "steps")
 		interleaved := map[int]bool{}
 		for s := 0; s < steps; s++ {
@@ -201,24 +232,53 @@ func TestC11Sequential(t *testing.T) {
 				}
 				sync1()
 				interleaved[i] = true
-				m := model[i]
-				what := "queued on its connection"
-				switch {
-				case m != nil:
-					m.queue = append(m.queue, p)
-				case filter && len(p) > 0 && p[0] == 'X':
-					what = "refused by the accept filter"
-					c.Label("filter-refusal")
-				case len(pending) >= backlog:
-					what = "dropped: backlog full"
-					c.Label("backlog-overflow")
-				default:
-					model[i] = &mconn{queue: [][]byte{p}}
-					pending = append(pending, i)
-					what = "created a connection"
-				}
+				what := apply(i, p)
 				c.Op("send remote %d %d bytes first=%c: %s", i, len(p), first, what)
 				t.Logf("send remote %d: %d bytes first=%c -> %s (pending %v)", i, len(p), first, what, pending)
+			case op < 58:
+				// burst: park the read loop in the filter, send 2..6 datagrams back to back,
+				// release: they are dispatched from one batch (when batch reading is on)
+				g := dial()
+				defer g.Close() //nolint:errcheck
+				if _, err := g.Write([]byte("GATE")); err != nil {
+					t.Fatalf("gate write: %v", err)
+				}
+				select {
+				case <-gateIn:
+				case <-time.After(5 * time.Second):
+					t.Fatalf("VERIF-INFRA: the read loop never reached the accept filter")
+				}
+				nb := rapid.IntRange(2, 6).Draw(t, "burst")
+				type bd struct {
+					i int
+					p []byte
+				}
+				var sent []bd
+				for k := 0; k < nb; k++ {
+					bi := rapid.IntRange(0, nr-1).Draw(t, "bremote")
+					if k > 0 && rapid.Bool().Draw(t, "same") {
+						bi = sent[k-1].i // runs of one remote inside the batch
+					}
+					first := byte('D')
+					if rapid.IntRange(0, 2).Draw(t, "bx") == 0 {
+						first = 'X'
+					}
+					seq++
+					p := dgram(bi, seq, rapid.IntRange(9, 300).Draw(t, "bsize"), first)
+					if _, err := remotes[bi].Write(p); err != nil {
+						t.Fatalf("remote write: %v", err)
+					}
+					sent = append(sent, bd{bi, p})
+				}
+				gateOut <- struct{}{}
+				sync1()
+				c.Label("burst-in-one-batch")
+				for _, b := range sent {
+					interleaved[b.i] = true
+					what := apply(b.i, b.p)
+					c.Op("burst remote %d %d bytes first=%c: %s", b.i, len(b.p), b.p[0], what)
+					t.Logf("burst: remote %d %d bytes first=%c -> %s (pending %v)", b.i, len(b.p), b.p[0], what, pending)
+				}
 			case op < 65:
 				accept()
 			case op < 88:
